@@ -70,7 +70,7 @@ def _site_clauses(S, sites, val, rmax, src_mask, tgt_mask, tag):
     cl = []
     for k, st in enumerate(sites):
         dist, src, tgt = val(st)
-        cl += _admissible_clauses(S, f"{tag}_site{k}_line{st.lineno}", st.facts, src, tgt, dist, rmax, src_mask, tgt_mask)
+        cl += _admissible_clauses(S, f"{tag}_site{k}", st.facts, src, tgt, dist, rmax, src_mask, tgt_mask)
     return cl
 
 
@@ -180,7 +180,7 @@ class NumbaKernel(Contract):
         for k, (sd, si) in enumerate(pairs):
             (kd, dist), (ki, tgt) = sd.value, si.value
             src = sym.to_z3(kd[0])
-            cl += _admissible_clauses(S, f"numba_site{k}_line{sd.lineno}", si.facts, src, sym.to_z3(tgt), zr(dist), inp["rmax"].t, S.s1, S.s2,
+            cl += _admissible_clauses(S, f"numba_site{k}", si.facts, src, sym.to_z3(tgt), zr(dist), inp["rmax"].t, S.s1, S.s2,
                                       extra_goals=(sym.to_z3(ki[0]) == src, sym.to_z3(ki[1]) == sym.to_z3(kd[1]), sym.to_z3(kd[1]) >= 0, sym.to_z3(kd[1]) < sym.to_z3(md.shape[1])))
         return cl
 
@@ -230,7 +230,7 @@ class CudaKernel(Contract):
         for k, (sd, si) in enumerate(zip(md.sites, mi.sites)):
             (kd, dist), (ki, tgt) = sd.value, si.value
             slot = sym.to_z3(kd) - src * inp["cap"].t
-            cl += _admissible_clauses(S, f"cuda_site{k}_line{sd.lineno}", si.facts, src, sym.to_z3(tgt), zr(dist), inp["rmax"].t, S.s1, S.s2,
+            cl += _admissible_clauses(S, f"cuda_site{k}", si.facts, src, sym.to_z3(tgt), zr(dist), inp["rmax"].t, S.s1, S.s2,
                                       extra_goals=(sym.to_z3(ki) == sym.to_z3(kd), slot >= 0, slot < inp["cap"].t))
         return cl
 
